@@ -84,13 +84,20 @@ def rule_a(ctx, out):
     out.info["dispatched_opcodes"] = dispatched
     # branches present in apply_transform
     handled = set()
+    # the selector: the local that holds <record>["disasm"]
+    selectors = {t.id for n in own_nodes(f.node) if isinstance(n, ast.Assign) and isinstance(n.value, ast.Subscript) and isinstance(n.value.slice, ast.Constant)
+                 and n.value.slice.value == "disasm" for t in n.targets if isinstance(t, ast.Name)}
+    if not selectors:
+        raise AnalysisError("apply_transform: the local holding the record's opcode (instr['disasm']) was not found")
     for n in own_nodes(f.node):
-        if isinstance(n, ast.Compare) and is_name(n.left, "opcode") and isinstance(n.ops[0], ast.Eq) and isinstance(n.comparators[0], ast.Constant):
+        if isinstance(n, ast.Compare) and isinstance(n.left, ast.Name) and n.left.id in selectors and isinstance(n.ops[0], ast.Eq) and isinstance(n.comparators[0], ast.Constant):
             handled.add(n.comparators[0].value)
     out.info["branches_not_dispatched"] = sorted(handled - set(dispatched))
     # premise: operands only compared
+    operand_lists = {t.id for n in own_nodes(f.node) if isinstance(n, ast.Assign) and isinstance(n.value, ast.Subscript) and isinstance(n.value.slice, ast.Constant)
+                     and n.value.slice.value == "inpt_sk" for t in n.targets if isinstance(t, ast.Name)}
     for n in own_nodes(f.node):
-        if isinstance(n, ast.Subscript) and is_name(n.value, "inp_vars"):
+        if isinstance(n, ast.Subscript) and isinstance(n.value, ast.Name) and n.value.id in operand_lists:
             p = getattr(n, "_parent", None)
             if isinstance(p, (ast.Compare, ast.Return, ast.IfExp)) or (isinstance(p, ast.Call) and call_name(p) in ("int", "all_integers")):
                 continue
@@ -352,12 +359,33 @@ def rule_d(ctx, out):
             out.ok({"compute_binary": "fold under size mode passes check_size"})
         else:
             out.bad("compute_binary:size-gate-bypassed", "in size mode a folded constant can be returned without passing check_size", where(cb, r.ast))
+    # check_size by evaluation: on a grid of operand/result values, it accepts exactly when the folded constant needs no more bytes
+    # than the two PUSHes and the operation it replaces (PUSH a, PUSH b, OP = bytes(a)+1 + bytes(b)+1 + 1; PUSH r = bytes(r)+1)
     cs = ctx.func(f"{GO}.check_size")
-    cmpn = [n for n in own_nodes(cs.node) if isinstance(n, ast.Compare) and "bytes_sol" in norm(n)]
-    if cmpn and all(isinstance(n.ops[0], (ast.LtE, ast.Lt)) and norm(n.left) == "bytes_sol" for n in cmpn):
-        out.ok({"check_size": norm(cmpn[0])})
+    mi = ModuleInterp(ctx, max_steps=50000)
+    def nbytes(v):
+        return max(1, (v.bit_length() + 7) // 8)
+    grid = [0, 1, 255, 256, 65535, 65536, 2**32 - 1, 2**64, 2**128, 2**255, 2**256 - 1]
+    n_inst, wrong = 0, []
+    for a in grid[:7]:
+        for b in grid[:7]:
+            for r in grid:
+                try:
+                    got = mi.call(cs, (a, b), r)
+                except (Raised, Unsupported) as e:
+                    raise AnalysisError(f"check_size cannot be evaluated: {e}")
+                n_inst += 1
+                if not (isinstance(got, tuple) and len(got) == 2):
+                    raise AnalysisError("check_size no longer returns a pair (accepted, expression)")
+                accepted = got[1] == r and got[1] != (a, b)
+                if accepted and nbytes(r) > nbytes(a) + nbytes(b) + 2:
+                    wrong.append((a, b, r))
+    if wrong:
+        a, b, r = wrong[0]
+        out.bad("check_size:accepts-larger-result", f"check_size accepts a folded constant that needs more bytes than the code it replaces, e.g. operands "
+                f"{a:#x}, {b:#x} -> result {r:#x} ({nbytes(r)} bytes > {nbytes(a)}+{nbytes(b)}+2); {len(wrong)}/{n_inst} grid instances", where(cs))
     else:
-        out.bad("check_size:comparison-changed", "check_size no longer accepts only results that are not larger than the operands plus the operation", where(cs))
+        out.ok({"check_size": f"{n_inst} grid instances: a result is accepted only if bytes(result) <= bytes(a)+bytes(b)+2"})
     # NOT folds: in size mode the folded value is returned / used only along the accepting edge of the byte-size comparison
     #   <bytes of the folded constant>  <=  <bytes of the operand> + 1      (in whatever form: `<=` then-branch, `>` guard clause, ...)
     for q in (f"{GO}.update_unary_func", f"{GO}.apply_transform"):
